@@ -554,6 +554,42 @@ func c09Shadow(rt *rapid.T) *c09Case {
 	return cs
 }
 
+// c09GeneratedDecls: an earlier change writes declarations (names spelled out
+// on its '+' lines); a later change binds an identifier metavariable at such
+// a declaration and again at a use of the name that was in the file all
+// along, possibly with other candidates for the declaration before the right
+// one. Code written by an earlier change of the same run has to be matched
+// like code read from a file.
+func c09GeneratedDecls(rt *rapid.T) *c09Case {
+	cs := &c09Case{Family: "synthetic-generated-declarations"}
+	if rapid.Bool().Draw(rt, "redeclare") {
+		cs.File = "package p\n\nfunc f(addr string) error {\n\tctx := context.Background()\n\tprepare(addr)\n\treturn run(ctx, addr)\n}\n"
+		cs.Changes = []string{
+			"@@\n@@\n-ctx := context.Background()\n+ctx := context.TODO()\n",
+			rapid.SampledFrom([]string{
+				"@@\nvar c identifier\n@@\n-c := context.TODO()\n+c := context.WithoutCancel(context.TODO())\n ...\n-return run(c, addr)\n+return runAll(c, addr)\n",
+				"@@\nvar c identifier\n@@\n c := context.TODO()\n ...\n-return run(c, addr)\n+return runAll(c, addr)\n",
+				"@@\nvar c identifier\nvar v expression\n@@\n c := v\n prepare(addr)\n-return run(c, addr)\n+return runAll(c, addr)\n",
+			}).Draw(rt, "second"),
+		}
+		return cs
+	}
+	names := []string{"in", "out", "tmp", "aux"}
+	n := rapid.IntRange(2, 4).Draw(rt, "nDecls")
+	used := names[rapid.IntRange(0, n-1).Draw(rt, "used")]
+	cs.File = "package p\n\nfunc g(conn T) error {\n\tsetup()\n\tmu.Lock()\n\tprepare(conn)\n\treturn send(conn, " + used + ")\n}\n"
+	first := "@@\n@@\n-setup()\n"
+	for _, nm := range names[:n] {
+		first += "+" + nm + " := newBuf()\n"
+	}
+	cs.Changes = []string{first, rapid.SampledFrom([]string{
+		"@@\nvar b identifier\n@@\n-b := newBuf()\n+b := newBufN(8)\n ...\n mu.Lock()\n ...\n-return send(conn, b)\n+return sendAll(conn, b)\n",
+		"@@\nvar b identifier\n@@\n b := newBuf()\n ...\n-return send(conn, b)\n+return sendAll(conn, b)\n",
+		"@@\nvar b identifier\n@@\n b := newBuf()\n ...\n mu.Lock()\n ...\n prepare(conn)\n-return send(conn, b)\n+return sendAll(conn, b)\n",
+	}).Draw(rt, "second")}
+	return cs
+}
+
 var c09Opts = modelOpts{
 	Mine:         gen.MineOpts{MaxHoles: 2, MaxDots: 1},
 	MaxHostLines: 150,
@@ -615,11 +651,13 @@ func TestC09(t *testing.T) {
 				cs = c09Focused(rt)
 			} else if k == 2 {
 				cs = c09Emptied(rt)
-				switch rapid.IntRange(0, 5).Draw(rt, "otherSynthetic") {
+				switch rapid.IntRange(0, 7).Draw(rt, "otherSynthetic") {
 				case 0:
 					cs = c09Unprintable(rt)
 				case 1, 2:
 					cs = c09Shadow(rt)
+				case 3, 4:
+					cs = c09GeneratedDecls(rt)
 				}
 			} else {
 				cs = c09Synthetic(rt)
